@@ -166,13 +166,20 @@ def mk_shutdown(si, race):
                 late = A.ctx.request(q2, handle_blockwise=False).response
                 loop.run_ready()
                 assert late.done() and isinstance(late.exception(), error.LibraryShutdown)
+                # ... also when the application gives up on it before the loop got to it
+                q3 = Message(code=GET, uri_path=["after2"])
+                q3.remote = A.remote(peer)
+                late3 = A.ctx.request(q3, handle_blockwise=False).response
+                late3.cancel()
+                loop.run_ready()
+                assert late3.cancelled()
                 # the other context is unaffected
                 B.deliver(Message(code=CONTENT, _mtype=ACK, _mid=breq.mid, _token=breq.token, payload=b"b-ok").encode(), stack.R0)
                 assert rqb.response.done() and rqb.response.result().payload == b"b-ok"
                 # run every timer that is left: nothing more is transmitted, nothing raises in the loop
                 loop.drain()
                 assert len(A.tr.sent) == n_sent and A.tr.sent_after_close == [], "transmission after shutdown"
-                assert loop.exceptions == [], "callback raised in the event loop after shutdown"
+                assert loop.exceptions == [] and loop.unretrieved_task_exceptions() == [], "callback or task raised in the event loop after shutdown"
                 tb = B.shutdown()
                 loop.drain()
                 assert tb.done() and tb.exception() is None
